@@ -40,6 +40,7 @@ func cmdHarness(args []string) {
 	params := fs.String("params", "{}", "")
 	maxPaths := fs.Int("maxpaths", 0, "")
 	knownFlag := fs.String("known", "", "comma-separated open finding ids")
+	sched := fs.Int("sched", -1, "explore schedules with this many preemptions")
 	fs.Parse(args)
 	t0 := time.Now()
 	p, err := explore.Load(*repo, *hdir, []string{*pkg})
@@ -56,6 +57,9 @@ func cmdHarness(args []string) {
 	}
 	spec := explore.HarnessSpec{Name: *fn, Solver: *solver, MaxPaths: *maxPaths, Params: map[string]int{}}
 	json.Unmarshal([]byte(*params), &spec.Params)
+	if *sched >= 0 {
+		spec.Sched, spec.MaxPre = true, *sched
+	}
 	st, err := e.Run(spec)
 	if err != nil {
 		fmt.Fprintln(os.Stderr, "error:", err)
